@@ -201,6 +201,7 @@ class Reader(BaseValidator):
                 source_path = source_data_stream_or_path.name
             except AttributeError:
                 source_path = "<io>"
+        self._source_path = source_path
         self._location = errors.Location(source_path, has_cell=True)
         self._source_data_stream_or_path = source_data_stream_or_path
         self._on_error = on_error
@@ -248,6 +249,8 @@ class Reader(BaseValidator):
         # an earlier use of the CID.
         self.accepted_rows_count = 0
         self.rejected_rows_count = 0
+        # Start counting rows at the beginning again in case the data are read another time.
+        self._location = errors.Location(self._source_path, has_cell=True)
         for check in self.cid.check_map.values():
             check.reset()
         return self._rows()
